@@ -134,6 +134,18 @@ def apiWrites : ApiCall → List Cell
   | .randsClear => [.randsInit]
   | _ => []
 
+/-- the cells an API call looks at -/
+def apiReads : ApiCall → List Cell
+  | .setMemoryFunctions _ _ _ => []
+  | .getMemoryFunctions => [.allocFn, .reallocFn, .freeFn]
+  | .setDefaultPrec _ => []
+  | .getDefaultPrec => [.defaultPrec]
+  | .mpfInit => [.defaultPrec, .allocFn]
+  | .allocCycle => [.allocFn, .reallocFn, .freeFn]
+  | .oldRandom => [.randsInit, .rands, .allocFn]
+  | .randsClear => [.randsInit, .freeFn]
+  | .readErrno => [.errno]
+
 /-- initial cells of a freshly loaded library: default functions (id 0), 53 bits, nothing else set -/
 def cells0 : Cells := fun x => match x with
   | .defaultPrec => bitsToPrec 53
